@@ -17,7 +17,7 @@ for m in muts:
     assert src.count(m["old"]) == 1, (m["id"], src.count(m["old"]))
     open(path, "w").write(src.replace(m["old"], m["new"]))
     try:
-        p = subprocess.run([os.path.join(here, "check"), pid, "--tier", "quick"], stdout=subprocess.PIPE, stderr=subprocess.STDOUT,
+        p = subprocess.run([os.path.join(here, "check"), pid, "--tier", "quick"], stdout=subprocess.PIPE, stderr=subprocess.STDOUT, timeout=3000,
                            env={**os.environ, "VERIF_SEED": str(m.get("seed", 1))})
         out = p.stdout.decode()
     finally:
@@ -33,7 +33,7 @@ for m in muts:
         # replay must reproduce on the mutated tree
         open(path, "w").write(src.replace(m["old"], m["new"]))
         try:
-            rr = subprocess.run([os.path.join(here, "check"), pid, "--replay", rp], stdout=subprocess.PIPE, stderr=subprocess.STDOUT, env=os.environ)
+            rr = subprocess.run([os.path.join(here, "check"), pid, "--replay", rp], stdout=subprocess.PIPE, stderr=subprocess.STDOUT, env=os.environ, timeout=1200)
         finally:
             open(path, "w").write(src)
         detail += " | replay rc=%d" % rr.returncode
